@@ -225,6 +225,8 @@ def _worker(args):
     for ik, full in plans:
         if budget_s and time.time() - t0 > budget_s:
             break
+        if _HUNG is not None and _HUNG.value:
+            break           # a hang has been established elsewhere: more paths only cost time-outs
         obs = [] if keep_obs else None
         try:
             if can_alarm:
@@ -245,6 +247,8 @@ def _worker(args):
                 n, d = 0, Divergence('hang', len(acts) - 1, acts, None, None, [],
                                      'a call into the implementation did not return within %ds, nor within '
                                      '%ds when the path was replayed again' % (PATH_TIMEOUT_S, 3 * PATH_TIMEOUT_S))
+                if _HUNG is not None:
+                    _HUNG.value = 1
         finally:
             if can_alarm:
                 signal.setitimer(signal.ITIMER_REAL, 0)
@@ -260,16 +264,18 @@ def _worker(args):
 
 
 _POOL = None
+_HUNG = None        # shared flag: some worker has confirmed a hang in the current batch of chunks
 
 
 def start_workers(procs=None):
     """Start the replay worker processes.  Called once, early (while this process is
     still small): forking from a process that holds a large state graph costs seconds
     of page-table copying per child and a page copy per touched object."""
-    global _POOL
+    global _POOL, _HUNG
     if _POOL is None:
         procs = procs or min(16, os.cpu_count() or 1)
         ctx = multiprocessing.get_context('fork')
+        _HUNG = ctx.RawValue('i', 0)            # created before the fork: shared with the workers
         _POOL = ctx.Pool(procs)
     return _POOL
 
@@ -320,6 +326,8 @@ def _run_chunks(make_adapter, states, plans, procs, budget_s, keep_obs=False):
                 need[k] = exp_of(k)
         args.append((ch, need, budget_s, keep_obs))
     _G['make'] = make_adapter
+    if _HUNG is not None:
+        _HUNG.value = 0
     if procs == 1:
         return [_worker(a) for a in args]
     return _fork_map(procs, args)
